@@ -108,6 +108,9 @@ pub struct Life {
     pub wallet_start: Uint128,
     pub dx: SInt,
     pub fees: SInt,
+    /// funding charged to the position at its owner's actions, from the harness's own ledgers
+    /// ((cumulative fraction at the last settlement - fraction at the last charge) x size held)
+    pub funding: SInt,
     pub valid: bool,
 }
 
@@ -200,7 +203,8 @@ impl Run {
             let who = rec.op.sender();
             match &rec.op {
                 Op::Open { .. } | Op::Close { .. } | Op::Withdraw { .. } => {
-                    self.charged_at.insert((self.vi, who), rec.post.cum[self.vi]);
+                    // (the harness's own cumulative fraction, not the engine's report)
+                    self.charged_at.insert((self.vi, who), self.cum_ledger[self.vi]);
                 }
                 _ => {}
             }
@@ -217,9 +221,13 @@ impl Run {
         }
         let vi = self.vi;
         match &rec.op {
-            Op::PayFunding { .. } if rec.tx.ok => {
-                for l in self.life.values_mut() {
-                    l.valid = false;
+            Op::Withdraw { who, .. } if rec.tx.ok => {
+                // a withdrawal settles the funding accrued so far (the amount itself returns to the
+                // wallet and is part of the wallet delta)
+                let key = (vi, *who);
+                let f = self.funding_due(&key, rec);
+                if let Some(l) = self.life.get_mut(&key) {
+                    l.funding = l.funding.add(f);
                 }
             }
             Op::Liquidate { trader, .. } if rec.tx.ok => {
@@ -231,21 +239,23 @@ impl Run {
                 let key = (vi, *who);
                 let was_flat = rec.pre.pos[&key].as_ref().map(|p| p.size.value.is_zero()).unwrap_or(true);
                 if was_flat {
-                    self.life.insert(key, Life { wallet_start: rec.pre.bal[*who], dx: SInt::zero(), fees: SInt::zero(), valid: true });
+                    self.life.insert(key, Life { wallet_start: rec.pre.bal[*who], dx: SInt::zero(), fees: SInt::zero(), funding: SInt::zero(), valid: true });
                 }
                 let bad_debt_moved = !symrt::decide(s(rec.pre.eng.bad_debt).eq(s(rec.post.eng.bad_debt)));
                 let dx = s(rec.post.vamm[vi].quote_asset_reserve).sub(s(rec.pre.vamm[vi].quote_asset_reserve));
                 let fee = s(rec.post.bal["fee_pool"]).sub(s(rec.pre.bal["fee_pool"])).add(s(rec.post.bal["insurance_fund"]).sub(s(rec.pre.bal["insurance_fund"])));
+                let fdue = if was_flat { SInt::zero() } else { self.funding_due(&key, rec) };
                 if let Some(l) = self.life.get_mut(&key) {
                     l.dx = l.dx.add(dx);
                     l.fees = l.fees.add(fee);
+                    l.funding = l.funding.add(fdue);
                     if bad_debt_moved {
                         l.valid = false;
                     }
                     let now_flat = rec.post.pos[&key].as_ref().map(|p| p.size.value.is_zero()).unwrap_or(true);
                     if now_flat && l.valid {
                         let wallet = s(rec.post.bal[*who]).sub(s(l.wallet_start));
-                        prove_d("C04/round-trip-pays-what-the-vamm-exchanged-minus-fees", wallet.eq(l.dx.neg().sub(l.fees)), format!("{} trader={}", rec.what, who));
+                        prove_d("C04/round-trip-pays-what-the-vamm-exchanged-minus-fees-and-funding", wallet.eq(l.dx.neg().sub(l.fees).sub(l.funding)), format!("{} trader={}", rec.what, who));
                     }
                     if now_flat {
                         self.life.remove(&key);
@@ -254,6 +264,21 @@ impl Run {
             }
             _ => {}
         }
+    }
+
+    /// funding the position of `key` owes at this transaction according to the harness's ledgers:
+    /// (cumulative fraction as of the last settlement - fraction at its last charge) x size held
+    /// before the transaction, truncated like the engine's signed division
+    fn funding_due(&self, key: &(usize, &'static str), rec: &StepRec) -> SInt {
+        let p0 = match &rec.pre.pos[key] {
+            Some(p) if !p.size.value.is_zero() => p,
+            _ => return SInt::zero(),
+        };
+        let at = match self.charged_at.get(key) {
+            Some(a) => *a,
+            None => return SInt::zero(),
+        };
+        si(&self.cum_ledger[key.0]).sub(si(&at)).mul(si(&p0.size)).div_t(c(self.w.d))
     }
 
     fn monitors(&self, r: &StepRec) {
